@@ -497,14 +497,29 @@ def namedtuple_types(tree):
     stores = _module_bindings(tree)
     out = {}
     for st in tree.body:
-        if not (isinstance(st, ast.Assign) and len(st.targets) == 1 and isinstance(st.targets[0], ast.Name) and isinstance(st.value, ast.Call)):
+        if isinstance(st, ast.ClassDef):
+            # ``class _P(namedtuple('_P', 'a b')): __slots__ = (); <methods>``: construction and field access are the named
+            # tuple's own when the body defines no constructor / attribute hook and binds no field name
+            if len(st.bases) != 1 or st.keywords or st.decorator_list or not isinstance(st.bases[0], ast.Call):
+                continue
+            c, name = st.bases[0], st.name
+            body_names = set()
+            for m in st.body:
+                if isinstance(m, (ast.FunctionDef, ast.AsyncFunctionDef, ast.ClassDef)):
+                    body_names.add(m.name)
+                else:
+                    body_names |= _stored_names([m])
+            if body_names & {'__new__', '__init__', '__getattribute__', '__getattr__', '__getitem__', '__class_getitem__', '__init_subclass__'}:
+                continue
+        elif isinstance(st, ast.Assign) and len(st.targets) == 1 and isinstance(st.targets[0], ast.Name) and isinstance(st.value, ast.Call):
+            c, name, body_names = st.value, st.targets[0].id, set()
+        else:
             continue
-        c = st.value
         f = c.func
         if not ((isinstance(f, ast.Name) and f.id == 'namedtuple') or
                 (isinstance(f, ast.Attribute) and f.attr == 'namedtuple' and isinstance(f.value, ast.Name) and f.value.id == 'collections')):
             continue
-        if len(c.args) != 2 or c.keywords or stores.get(st.targets[0].id) != 1:
+        if len(c.args) != 2 or c.keywords or stores.get(name) != 1:
             continue
         spec = c.args[1]
         fields = None
@@ -512,8 +527,9 @@ def namedtuple_types(tree):
             fields = spec.value.replace(',', ' ').split()
         elif isinstance(spec, (ast.Tuple, ast.List)) and all(isinstance(e, ast.Constant) and isinstance(e.value, str) for e in spec.elts):
             fields = [e.value for e in spec.elts]
-        if fields and all(x.isidentifier() and not x.startswith('_') for x in fields) and len(set(fields)) == len(fields):
-            out[st.targets[0].id] = fields
+        if fields and all(x.isidentifier() and not x.startswith('_') for x in fields) and len(set(fields)) == len(fields) and \
+                not (set(fields) & body_names):
+            out[name] = fields
     return out
 
 
@@ -565,7 +581,16 @@ def project_namedtuples(tree):
                 plans.append(got)
             if not plans:
                 continue
-            loc = dict((f, '%s__%s' % (v, f)) for f in fields)
+            # a projected field is named after the field when the function holds one record only and that name is free in the
+            # whole function (the code then reads as if the options had been plain locals), ``<variable>__<field>`` otherwise
+            import keyword
+            used = set(z.id for z in ast.walk(fn) if isinstance(z, ast.Name)) | set(z.arg for z in ast.walk(fn) if isinstance(z, ast.arg)) | \
+                set(nm for z in ast.walk(fn) if isinstance(z, (ast.Global, ast.Nonlocal)) for nm in z.names) | \
+                set(z.name for z in ast.walk(fn) if isinstance(z, (ast.FunctionDef, ast.AsyncFunctionDef, ast.ClassDef))) | \
+                set((a.asname or a.name).split('.')[0] for z in ast.walk(fn) if isinstance(z, (ast.Import, ast.ImportFrom)) for a in z.names) | \
+                set(z.name for z in ast.walk(fn) if isinstance(z, ast.ExceptHandler) and z.name)
+            plain = len(binds) == 1      # several records in one function: every field keeps its variable's prefix
+            loc = dict((f, f if (plain and f not in used and not keyword.iskeyword(f)) else '%s__%s' % (v, f)) for f in fields)
             # only worth doing when a field of the variable is read by name / index somewhere
             if not any((isinstance(z, ast.Attribute) and z.attr in loc or isinstance(z, ast.Subscript) and isinstance(z.slice, ast.Constant)) and
                        isinstance(z.value, ast.Name) and z.value.id == v for z in ast.walk(fn)):
